@@ -185,6 +185,11 @@ func (b *Bucket) MarshalBinary() (data []byte, err error) {
 		data = append(data, bytes...)
 	}
 
+	// Pad with zeros to the 64-bit aligned length declared above (and reported by Len()).
+	if pad := int(b.Length) - len(data); pad > 0 {
+		data = append(data, make([]byte, pad)...)
+	}
+
 	return
 }
 
